@@ -172,7 +172,7 @@ pub fn exec_flood(case: &J, prop: &'static str, st: &mut Stats) -> Result<RunOut
             })
         };
     }
-    world::reset(Config { cap_c2s: case.cap_c2s, cap_s2c: case.cap_s2c, out_threshold: OutThreshold::AnySpace, log: false, first_fd: 3 });
+    world::reset(Config { cap_c2s: case.cap_c2s, cap_s2c: case.cap_s2c, out_threshold: OutThreshold::AnySpace, log: false, first_fd: 3, fd_stride: 1 });
     if case.cycles > 0 {
         return exec_turnstile(&case, prop, st);
     }
